@@ -27,6 +27,7 @@ type tkHarness struct {
 	fault    string
 	ttNames  map[int64]string
 	lastPath string
+	maxOK    int // the most steps a token-list run that ended has taken on this instance
 }
 
 var tokenizerCtors = map[string][2]string{
@@ -162,6 +163,9 @@ func (h *tkHarness) tokenizeVia(entry, s string) (mv, tkResult) {
 		r, out = h.call(entry, mIface{t: newScanner.Signature.Results().At(0).Type(), v: sc})
 	}
 	h.lastPath = h.m.recentPath()
+	if out.kind == "ok" && h.m.steps > h.maxOK {
+		h.maxOK = h.m.steps
+	}
 	if out.kind != "ok" {
 		return nil, tkResult{kind: out.kind, why: out.why}
 	}
